@@ -100,3 +100,169 @@ silent("c17-s-stack-read-elsewhere", "C17", TERMS, "<<EOF>>",
 silent("c17-s-prioritized-next-generator", "C17", INTERP,
        "        for s in self._subinterpretations:\n            result = s.interpret(cls, *args)\n            if result is not None:\n                return result\n",
        "        for sub in self._subinterpretations:\n            out = sub.interpret(cls, *args)\n            if out is not None:\n                return out\n        return None\n")
+
+# ----------------------------------------------------------------------------------------------------------------- C20
+TENSOR = "funsor/tensor.py"
+ARRAY = "funsor/ops/array.py"
+fire("c20-binary-init-dropped-copy", "C20", TERMS,
+     "        inputs = lhs.inputs.copy()\n        inputs.update(rhs.inputs)\n        output = find_domain(op, lhs.output, rhs.output)",
+     "        inputs = lhs.inputs\n        inputs.update(rhs.inputs)\n        output = find_domain(op, lhs.output, rhs.output)",
+     "R20.2", "Binary.__init__")
+fire("c20-getitem-dropped-copy", "C20", TENSOR,
+     "    inputs = lhs.inputs.copy()\n    inputs[rhs.name] = rhs.output\n",
+     "    inputs = lhs.inputs\n    inputs[rhs.name] = rhs.output\n", "R20.2")
+fire("c20-lambda-dropped-copy", "C20", TENSOR,
+     "    inputs = expr.inputs.copy()\n    if var.name in inputs:\n        inputs.pop(var.name)",
+     "    inputs = expr.inputs\n    if var.name in inputs:\n        inputs.pop(var.name)", "R20.2")
+fire("c20-scatter-writes-destination", "C20", ARRAY,
+     "def _scatter(destin, indices, source):\n    result = destin.copy()\n",
+     "def _scatter(destin, indices, source):\n    result = destin\n", "R20.2", "_scatter")
+fire("c20-scatter-add-at-on-destination", "C20", ARRAY,
+     "def _scatter_add(destin, indices, source):\n    result = destin.copy()\n",
+     "def _scatter_add(destin, indices, source):\n    result = destin\n", None, "_scatter_add")
+fire("c20-method-writes-self-data", "C20", TENSOR, "<<EOF>>",
+     "\n\ndef _zero_out(x):\n    assert isinstance(x, Tensor)\n    x.data[...] = 0\n    return x\n", "R20.2", "_zero_out")
+fire("c20-augassign-on-data", "C20", TENSOR, "<<EOF>>",
+     "\n\ndef _shift(x, c):\n    assert isinstance(x, Tensor)\n    data = x.data\n    data += c\n    return Tensor(data, x.inputs, x.dtype)\n",
+     "R20.3", "_shift")
+fire("c20-out-kw-on-operand", "C20", ARRAY,
+     "def _scatter(destin, indices, source):\n    result = destin.copy()\n",
+     "def _scatter(destin, indices, source):\n    np.negative(source, out=source)\n    result = destin.copy()\n", None, "out=source")
+fire("c20-field-assigned-after-construction", "C20", TERMS, "<<EOF>>",
+     "\n\ndef _retarget(x, output):\n    assert isinstance(x, Funsor)\n    x.output = output\n    return x\n", "R20.1", "_retarget")
+fire("c20-mutate-after-freeze", "C20", TERMS,
+     "        super(Binary, self).__init__(inputs, output)\n        self.op = op\n        self.lhs = lhs\n",
+     "        super(Binary, self).__init__(inputs, output)\n        inputs.pop(\"_tmp\", None)\n        self.op = op\n        self.lhs = lhs\n",
+     None, "inputs.pop")
+fire("c20-helper-mutates-borrowed-arg", "C20", TERMS, "<<EOF>>",
+     "\n\ndef _merge_into(inputs, other):\n    inputs.update(other)\n    return inputs\n\n\ndef _joint_inputs(x, y):\n    return _merge_into(x.inputs, y.inputs)\n",
+     "R20.6", "_joint_inputs")
+silent("c20-s-copy-via-ordereddict", "C20", TERMS,
+       "        inputs = lhs.inputs.copy()\n        inputs.update(rhs.inputs)\n        output = find_domain(op, lhs.output, rhs.output)",
+       "        inputs = OrderedDict(lhs.inputs)\n        inputs.update(rhs.inputs)\n        output = find_domain(op, lhs.output, rhs.output)")
+silent("c20-s-helper-on-fresh", "C20", TERMS, "<<EOF>>",
+       "\n\ndef _merge_into(inputs, other):\n    inputs.update(other)\n    return inputs\n\n\ndef _joint_inputs(x, y):\n    return _merge_into(x.inputs.copy(), y.inputs)\n")
+silent("c20-s-scatter-np-array-copy", "C20", ARRAY,
+       "def _scatter(destin, indices, source):\n    result = destin.copy()\n",
+       "def _scatter(destin, indices, source):\n    result = np.array(destin)\n")
+silent("c20-s-local-accumulator", "C20", TENSOR, "<<EOF>>",
+       "\n\ndef _sizes(x):\n    out = []\n    total = 0\n    for k, d in x.inputs.items():\n        out.append(d.size)\n        total += d.size\n    return out, total\n")
+silent("c20-s-augassign-on-fresh-array", "C20", TENSOR, "<<EOF>>",
+       "\n\ndef _shifted(x, c):\n    assert isinstance(x, Tensor)\n    data = x.data + 0\n    data += c\n    return Tensor(data, tuple(x.inputs.items()), x.dtype)\n")
+
+# ----------------------------------------------------------------------------------------------------------------- C07
+OP = "funsor/ops/op.py"
+DOMAINS = "funsor/domains.py"
+TYPING = "funsor/typing.py"
+fire("c07-cons-cache-strong-dict", "C07", TERMS,
+     "            cls._cons_cache = WeakValueDictionary()", "            cls._cons_cache = {}", "R07.1", "_cons_cache")
+fire("c07-op-cache-strong-dict", "C07", OP,
+     "        cls._instance_cache = weakref.WeakValueDictionary()", "        cls._instance_cache = dict()", "R07.1", "_instance_cache")
+fire("c07-domain-cache-weakkey", "C07", DOMAINS,
+     "class ProductDomain(Domain):\n    _type_cache = WeakValueDictionary()",
+     "class ProductDomain(Domain):\n    _type_cache = dict()", "R07.1")
+fire("c07-insert-under-truncated-key", "C07", TERMS,
+     "    cls._cons_cache[cache_key] = result\n    return result",
+     "    cls._cons_cache[cache_key[:1]] = result\n    return result", "R07.2", "reflect")
+fire("c07-no-insert", "C07", TERMS,
+     "    cls._cons_cache[cache_key] = result\n    return result", "    return result", "R07.2", "reflect")
+fire("c07-no-lookup", "C07", TERMS,
+     "    if cache_key in cls._cons_cache:\n        return cls._cons_cache[cache_key]\n", "", "R07.2", "reflect")
+fire("c07-hit-returns-other-key", "C07", OP,
+     "            op = cls._instance_cache[key] = super().__call__(*args, **kwargs)",
+     "            op = cls._instance_cache[args] = super().__call__(*args, **kwargs)", "R07.2", "OpMeta.__call__")
+fire("c07-key-skips-first-arg", "C07", INTERP,
+     "        return tuple(id(arg) if not isinstance(arg, Hashable) else arg for arg in args)",
+     "        return tuple(id(arg) if not isinstance(arg, Hashable) else arg for arg in args[1:])", "R07.3", "make_hash_key")
+fire("c07-key-filters-unhashable", "C07", INTERP,
+     "        return tuple(id(arg) if not isinstance(arg, Hashable) else arg for arg in args)",
+     "        return tuple(arg for arg in args if isinstance(arg, Hashable))", "R07.3", "make_hash_key")
+fire("c07-key-before-vararg-normalisation", "C07", TERMS,
+     "    cache_key = reflect.make_hash_key(cls, *args)\n    if cache_key in cls._cons_cache:",
+     "    cache_key = reflect.make_hash_key(cls, *args[:2])\n    if cache_key in cls._cons_cache:", "R07.3", "reflect")
+fire("c07-op-key-ignores-kwargs", "C07", OP,
+     "        return args, tuple(kwargs.items())", "        return args", "R07.3", "hash_args_kwargs")
+fire("c07-ast-values-not-kept", "C07", TERMS,
+     "    result._ast_values = args\n\n    if instrument.PROFILE:", "    if instrument.PROFILE:", "R07.4", "reflect")
+fire("c07-second-instantiation-site", "C07", TERMS, "<<EOF>>",
+     "\n\ndef _clone(x):\n    assert isinstance(x, Funsor)\n    new = object.__new__(type(x))\n    new.__dict__.update(x.__dict__)\n    return new\n", "R07.5", "_clone")
+fire("c07-hash-by-value", "C07", TERMS,
+     "    def __hash__(self):\n        return id(self)\n", "    def __hash__(self):\n        return hash(self._ast_values)\n", "R07.6", "__hash__")
+fire("c07-copy-makes-new-object", "C07", TERMS,
+     "    def __copy__(self):\n        return self\n",
+     "    def __copy__(self):\n        return reflect.interpret(type(self), *self._ast_values)\n", "R07.6", "__copy__")
+fire("c07-reduce-bypasses-constructor", "C07", TERMS,
+     "        return type(self).__origin__, self._ast_values\n",
+     "        return object.__new__, (type(self),), self.__dict__\n", "R07.6", "__reduce__")
+fire("c07-unmangled-result-cached", "C07", TERMS,
+     "    result = _alpha_mangle(result)\n\n    cls._cons_cache[cache_key] = result\n    return result",
+     "    cls._cons_cache[cache_key] = result\n    result = _alpha_mangle(result)\n    return result", None, "reflect")
+silent("c07-s-lookup-via-get", "C07", TERMS,
+       "    if cache_key in cls._cons_cache:\n        return cls._cons_cache[cache_key]\n",
+       "    cached = cls._cons_cache.get(cache_key)\n    if cached is not None:\n        return cached\n")
+silent("c07-s-lookup-via-try", "C07", TERMS,
+       "    if cache_key in cls._cons_cache:\n        return cls._cons_cache[cache_key]\n",
+       "    try:\n        return cls._cons_cache[cache_key]\n    except KeyError:\n        pass\n")
+silent("c07-s-renamed-key-local", "C07", TERMS,
+       "    cache_key = reflect.make_hash_key(cls, *args)\n    if cache_key in cls._cons_cache:\n        return cls._cons_cache[cache_key]\n",
+       "    k = reflect.make_hash_key(cls, *args)\n    cache_key = k\n    if cache_key in cls._cons_cache:\n        return cls._cons_cache[cache_key]\n")
+silent("c07-s-unrelated-strong-cache", "C07", TERMS, "<<EOF>>",
+       "\n\n_NAME_CACHE = {}\n\n\ndef _intern_name(name):\n    return _NAME_CACHE.setdefault(name, name)\n")
+silent("c07-s-key-loop-form", "C07", INTERP,
+       "        return tuple(id(arg) if not isinstance(arg, Hashable) else arg for arg in args)",
+       "        return tuple([arg if isinstance(arg, Hashable) else id(arg) for arg in args])")
+
+# ----------------------------------------------------------------------------------------------------------------- C05
+fire("c05-mangle-dropped", "C05", TERMS,
+     "    result = _alpha_mangle(result)\n\n    cls._cons_cache[cache_key] = result", "    cls._cons_cache[cache_key] = result", "R05.2", "reflect")
+fire("c05-mangle-only-first-bound", "C05", TERMS,
+     "        for name in expr.bound\n        if \"__BOUND\" not in name\n",
+     "        for name in list(expr.bound)[:1]\n        if \"__BOUND\" not in name\n", "R05.2", "_alpha_mangle")
+fire("c05-mangle-without-gensym", "C05", TERMS,
+     "        name: interpreter.gensym(name + \"__BOUND\")\n", "        name: name + \"__BOUND\"\n", "R05.2", "_alpha_mangle")
+fire("c05-gensym-counter-reset", "C05", INTERPRETER, "<<EOF>>",
+     "\n\ndef reset_gensym():\n    global _GENSYM_COUNTER\n    _GENSYM_COUNTER = 0\n", "R05.4", "reset_gensym")
+fire("c05-marker-mismatch", "C05", ADJOINT,
+     "                    (name, to_funsor(name.split(\"__BOUND\")[0], domain))",
+     "                    (name, to_funsor(name.split(\"__BND\")[0], domain))", "R05.5", count=2, nth=0)
+fire("c05-subs-filter-dropped", "C05", TERMS,
+     "            fresh_subs = tuple((k, v) for k, v in self.subs if k in expr.fresh)",
+     "            fresh_subs = tuple((k, v) for k, v in self.subs)", "R05.3", "SubstituteInterpretation")
+fire("c05-stop-ignores-inputs", "C05", TERMS,
+     "        if isinstance(x, Funsor) and support.isdisjoint(x.inputs):\n            return True\n        return False",
+     "        return False", "R05.3", "substitute")
+fire("c05-cat-part-name-not-renamed", "C05", TERMS,
+     "        return self.name, parts, part_name\n", "        return self.name, parts, self.part_name\n", "R05.1", "Cat")
+fire("c05-reduce-vars-not-renamed", "C05", TERMS,
+     "        op, arg, reduced_vars = super()._alpha_convert(alpha_subs)\n        reduced_vars = frozenset(alpha_subs.get(var.name, var) for var in reduced_vars)\n        return op, arg, reduced_vars",
+     "        op, arg, reduced_vars = super()._alpha_convert(alpha_subs)\n        return op, arg, self.reduced_vars", "R05.1", "Reduce")
+fire("c05-subs-keys-not-renamed", "C05", TERMS,
+     "        subs = tuple((str(alpha_subs.get(k, k)), v) for k, v in subs)\n        return arg, subs",
+     "        return arg, subs", "R05.1", "Subs")
+silent("c05-s-mangle-loop-form", "C05", TERMS,
+       "    alpha_subs = {\n        name: interpreter.gensym(name + \"__BOUND\")\n        for name in expr.bound\n        if \"__BOUND\" not in name\n    }\n",
+       "    alpha_subs = {}\n    for name in expr.bound:\n        if \"__BOUND\" in name:\n            continue\n        alpha_subs[name] = interpreter.gensym(name + \"__BOUND\")\n")
+silent("c05-s-cat-rename-local", "C05", TERMS,
+       "        return self.name, parts, part_name\n", "        new_part_name = part_name\n        return self.name, parts, new_part_name\n")
+silent("c05-s-gensym-read-elsewhere", "C05", INTERPRETER, "<<EOF>>",
+       "\n\ndef gensym_count():\n    return _GENSYM_COUNTER\n")
+
+# ----------------------------------------------------------------------------------------------------------------- C03
+fire("c03-memo-key-without-class", "C03", INTERP,
+     "        key = (cls,) + self.make_hash_key(cls, *args)", "        key = self.make_hash_key(cls, *args)", "R03.1", "Memoize.interpret")
+fire("c03-memo-key-drops-last-arg", "C03", INTERP,
+     "        key = (cls,) + self.make_hash_key(cls, *args)", "        key = (cls,) + self.make_hash_key(cls, *args[:-1])", "R03.1", "Memoize.interpret")
+fire("c03-memo-insert-under-other-key", "C03", INTERP,
+     "            self.cache[key] = value = self.base_interpretation.interpret(cls, *args)",
+     "            self.cache[key[1:]] = value = self.base_interpretation.interpret(cls, *args)", None, "Memoize.interpret")
+fire("c03-memoize-wraps-eager-not-current", "C03", INTERP,
+     "    base_interpretation = get_interpretation()\n    with Memoize(base_interpretation, cache) as interp:",
+     "    base_interpretation = eager\n    with Memoize(base_interpretation, cache) as interp:", "R03.3", "memoize")
+fire("c03-reinterpret-reversed-children", "C03", INTERPRETER,
+     "        return _STACK[-1].interpret(type(x), *map(recursion_reinterpret, children(x)))",
+     "        return _STACK[-1].interpret(type(x), *map(recursion_reinterpret, reversed(children(x))))", "R03.4")
+silent("c03-s-key-order", "C03", INTERP,
+       "        key = (cls,) + self.make_hash_key(cls, *args)", "        key = self.make_hash_key(cls, *args) + (cls,)")
+silent("c03-s-explicit-miss-branch", "C03", INTERP,
+       "        value = self.cache.get(key)\n        if value is None:\n            self.cache[key] = value = self.base_interpretation.interpret(cls, *args)\n        return value",
+       "        value = self.cache.get(key)\n        if value is not None:\n            return value\n        value = self.base_interpretation.interpret(cls, *args)\n        self.cache[key] = value\n        return value")
